@@ -337,10 +337,14 @@ func (x *Exec) simple(st *State, fr *frame, ins ssa.Instruction) {
 	switch in := ins.(type) {
 	case *ssa.DebugRef:
 		if obj, ok := in.Object().(*types.Var); ok && !in.IsAddr {
+			key := fmt.Sprintf("%s.%s#%d", fr.fn.String(), obj.Name(), int(obj.Pos()))
+			s.varObjs[key] = obj
 			if v, ok := st.regs[in.X]; ok {
-				st.names[fr.fn.String()+"."+obj.Name()] = v
+				st.names[key] = v
+				st.nameSeq[key] = len(st.nameSeq)
 			} else if c, ok := in.X.(*ssa.Const); ok {
-				st.names[fr.fn.String()+"."+obj.Name()] = s.constVal(c)
+				st.names[key] = s.constVal(c)
+				st.nameSeq[key] = len(st.nameSeq)
 			}
 		}
 	case *ssa.Alloc:
